@@ -22,7 +22,7 @@ META = dict(
     engine="E1-enum", level="exploration",
     technique="all ordered pairs over a pool of cdata and Python values x six operators + hash, compared with Python "
               "semantics of the converted values and with unsigned address comparison",
-    text="A pool (about 190 values quick, 500 thorough) holding every integer type at its boundary values, "
+    text="A pool (about 190 values quick, 450 thorough) holding every integer type at its boundary values, "
          "float/double at 0.0, -0.0, nan, inf, 2**53+1, values that round in float, long double, char/wchar_t/"
          "char16_t/char32_t, enums, _Bool, complex, pointer/array/struct/union/function cdata at three shared and "
          "several distinct addresses including NULL and addresses >= 2**63, and Python int/float/bool/bytes/str/"
